@@ -50,6 +50,7 @@ class Knobs:
     adjacent_links_diff_anchor: float = 0.0  # D20
     xml_comment_in_props: float = 0.05  # comment inside rPr/pPr/tcPr
     cell_without_par: float = 0.0
+    textbox_in_link: float = 0.0  # D32: a text box anchored in a hyperlink's run
     num_dangling_abstract: float = 0.0  # a w:num pointing at an abstractNum that is not there (corrupt numbering part)
     nested_par_in_table: float = 0.0  # D27: text box inside a table cell
     nested_pars: float = 0.15  # text boxes
@@ -435,7 +436,7 @@ class Gen:
             if pr is not None:
                 r.append(pr)
             r.append(self.E("w:t", {}, text=self.text() or "link"))
-            if self.p(self.k.nested_pars * 0.4) and self.depth == 0 and self.in_cell == 0:
+            if self.p(self.k.textbox_in_link) and self.depth == 0 and self.in_cell == 0:
                 # a text box anchored in the link's run
                 r.append(self.textbox())
                 self.feat("textbox_in_link")
